@@ -4,6 +4,7 @@ import vlib, zoo, seekgraph
 from seekgraph import Explorer, parse_out, OV_EINVAL
 
 PID = 'C20'
+REFUSE = ('F8', 'F9')
 SEEK = ('ps', 'pp', 'rs', 'ts', 'tp')
 
 
@@ -72,10 +73,18 @@ def make_judge(chk, stats):
             if o[:2] in SEEK:
                 ok = (rc == 0)
             elif o in ('h0', 'h1'):
-                if rc != 0:
+                if fm.name in REFUSE:
+                    if o == 'h1' and rc != OV_EINVAL:
+                        chk.violation(f'{fm.name}:halfrate_not_refused', f'h1 returned {rc} on a stream with 64-sample short blocks (expected OV_EINVAL) after {hist}', rep)
+                elif rc != 0:
                     chk.violation(classify(fm, hist, r, 'toggle_refused'), f'{o} returned {rc} on a stream without 64-sample blocks', rep)
             elif rc < 0:
                 ok = False
+        if parent is not None and op == 'h1' and fm.name in REFUSE:
+            stats['refusals'] += 1
+            # refused: full-rate decoding intact at the same position (the read-through probe below checks the audio from there)
+            if r['T'] != parent['rec']['T']:
+                chk.violation(f'{fm.name}:refusal_disturbed_state', f'refused h1 changed the handle state / position ({parent["rec"]["T"]} -> {r["T"]}) after {hist}', rep)
         if parent is not None and op in ('h0', 'h1'):
             stats['toggles'] += 1
             # toggling keeps the position (rounded down to the grid when switching on)
@@ -105,11 +114,20 @@ def run(tier):
     vlib.build('plain')
     allf = zoo.standard_files()
     files = {k: allf[k] for k in ('F1f', 'F2', 'F2z')}
+    files.update(zoo.halfrate_refusal_files())
     exe, listfile, models = seekgraph.load_models(files)
     # reference facts: ceil(N/2) per link, positions advance by two per sample
     rs = json.loads(subprocess.run([exe, '--files', listfile, '--refstats'], stdout=subprocess.PIPE, env=vlib.run_env(), text=True).stdout)
     for fm, st in zip(models, rs):
         rep = {'file': fm.name, 'ops': ['h1', 'read to end']}
+        if fm.name in REFUSE:
+            if st['href_ok'] or not st['ref_ok'] or st['ref_tell_errors']:
+                chk.violation(f'{fm.name}:refusal_reference', f'64-sample-block stream: half-rate linear decode was not refused or full-rate linear decode failed ({st})', rep)
+            for k, l in enumerate(st['links']):
+                if l['len'] != fm.links[k]['n'] or l['total'] != fm.links[k]['n']:
+                    chk.violation(f'{fm.name}:linear_count', f'link {k}: constructed {fm.links[k]["n"]} samples, decoded {l["len"]}, ov_pcm_total {l["total"]}', rep)
+            chk.cov['evaluations'] += 1
+            continue
         if not st['href_ok'] or not st['ref_ok']:
             chk.violation(f'{fm.name}:linear_halfrate_failed', 'linear (half-rate) decode reported an error or hole', rep)
             continue
@@ -121,7 +139,7 @@ def run(tier):
                 chk.violation(f'{fm.name}:halfrate_count', f'link {k}: N={n} full={l["len"]} half={l["hlen"]} expected {(n + 1) // 2}', rep)
         chk.cov['evaluations'] += 1
     t_end = time.time() + (200 if tier == 'quick' else 1500)
-    stats = {'toggles': 0, 'hr_seeks': 0, 'judged': 0, 'sigs': set()}
+    stats = {'toggles': 0, 'hr_seeks': 0, 'judged': 0, 'sigs': set(), 'refusals': 0}
     tot_states = tot_trans = 0
     per_file = {}
     all_fix = True
@@ -141,21 +159,25 @@ def run(tier):
     # streaming handles: toggle before the first read only
     cases = []
     for fm in models:
+        if fm.name == 'F8':
+            continue      # streaming: the 64-sample-block link is not known when the toggle is made; what must happen there is not specified
         cases += [f'{fm.idx} n - pcat h1', f'{fm.idx} n - pcat', f'{fm.idx} n - pcat h1 h0']
     out = [parse_out(x) for x in vlib.run_cases(exe, cases, ['--files', listfile], tag='stream')]
     for c, r in zip(cases, out):
         chk.cov['evaluations'] += 1
         P = r.get('P', r.get('err', '?'))
         if not P.startswith('ok'):
-            chk.violation('streaming:' + c.split(' ', 3)[3] + ':' + P.split(':')[1], f'streaming handle {c}: {P}', {'case': c})
+            chk.violation('streaming:' + c.split(' ', 3)[3] + ':' + (P.split(':') + ['?'])[1], f'streaming handle {c}: {P} {r}', {'case': c})
     if merr:
         chk.guard(False, 'replay determinism: %r' % (merr[:2],))
     chk.cov.update({'states': tot_states, 'transitions': tot_trans, 'traces_validated_against_impl': tot_trans,
                     'distinct_nontrivial': len(stats['sigs']), 'per_file': per_file, 'exhaustive': all_fix, 'toggle_transitions': stats['toggles'], 'halfrate_sample_seeks': stats['hr_seeks'],
                     'rule': 'BFS over histories of reads, seeks and ov_halfrate(0|1) toggles on real handles, canonical state hash; in every state the read-through must be bit-identical to the half-rate (flag on) '
                             'or full-rate (flag off) linear decode at ov_pcm_tell; totals unchanged; ps lands on p&~1; distinct_nontrivial = distinct (flag, op kind, flag before, link) signatures'})
-    chk.assumptions += ['zoo links have even lengths and even page granules so that "the even position at or below the target" is well defined', 'refusal on 64-sample-block streams is checked with a synthesised stream once vspec provides one']
+    chk.assumptions += ['zoo links have even lengths and even page granules so that "the even position at or below the target" is well defined', 'streams F8/F9 contain a link with 64-sample short blocks written by the specification-level synthesiser (the encoder never emits them)']
     chk.guard(stats['toggles'] > 20 and stats['hr_seeks'] > 50, 'toggles and half-rate seeks exercised')
+    chk.guard(stats['refusals'] > 10, 'refusal on 64-sample-block streams exercised from many states')
+    chk.cov['refusals_judged'] = stats['refusals']
     return chk.finish()
 
 
@@ -164,6 +186,7 @@ def replay(path):
     vlib.build('plain')
     allf = zoo.standard_files()
     files = {k: allf[k] for k in ('F1f', 'F2', 'F2z')}
+    files.update(zoo.halfrate_refusal_files())
     exe, listfile, models = seekgraph.load_models(files)
     fm = [m for m in models if m.name == r['replay']['file']][0]
     out = vlib.run_cases(exe, [f"{fm.idx} s - plin " + ' '.join(r['replay']['ops'])], ['--files', listfile], jobs=1)
